@@ -305,6 +305,15 @@ def t_missing(m, fresh, f):
     return FP('missing(%s)' % f, f, f, [h], ok=False, rej=f, fail_hunks=[0])
 
 
+def t_missing_u0(m, fresh, f):
+    """context-free hunks (diff -U0) on a file that is not there: a replacement that changes the line count, then a pure insertion
+    and a pure deletion whose two line numbers therefore differ by more than the usual one"""
+    if f in m.t:
+        return None
+    hunks = [Hunk(2, 2, [('-', b'b'), ('+', b'c'), ('+', b'd')]), Hunk(6, 8, [('+', fresh()), ('+', fresh())]), Hunk(9, 12, [('-', b'q')])]
+    return FP('missingu0(%s)' % f, f, f, hunks, ok=False, rej=f, fail_hunks=[0, 1, 2])
+
+
 def t_rename(m, fresh, f, g, withhunk):
     if f not in m.t or g in m.t or len(m.t[f][0]) < 3:
         return None
@@ -661,6 +670,10 @@ def special_series(m0=None):
         [[(t_rename_onto_empty, 'f', 'z', False), (t_modfail, 'd/g')]],
         [[(t_modfail, 'd/g'), (t_rename_onto_empty, 'd/h', 'z', True)]],
         [[(t_mod, 'e/i')], [(t_modfail, 'd/g')], [(t_rename_onto_empty, 'f', 'z', False)]],
+        # a failing rename onto a name that an earlier patch of the push removed or moved away: the name stays gone
+        [[(t_delete, 'd/h', False)], [(t_rename_fail, 'f', 'd/h')]],
+        [[(t_rename, 'd/h', 'n', False)], [(t_rename_fail, 'f', 'd/h'), (t_mod, 'e/i')]],
+        [[(t_delete, 'e/i', False), (t_mod, 'f')], [(t_mod, 'd/g')], [(t_rename_fail, 'd/g', 'e/i')]],
         # a rename of a file that does not exist
         [[(t_rename_missing, 'q', 'n')]],
         [[(t_mod, 'f')], [(t_rename_missing, 'q', 'n'), (t_mod, 'd/g')]],
@@ -750,6 +763,13 @@ def c13_space(max_files, m0=None):
         for combo in ([a, b], [b, a], [c, a], [a, c], [a, other, b], [a, d], [b, a, d]):
             out.append([Patch(list(combo))])
         out.append([Patch([t_mod(m0, fresh, 'd/h')]), Patch([a, b]), Patch([t_mod(m0, fresh, 'd/h', i=4)])])
+    # context-free hunks with a zero-length side among the failed ones: the reject must carry both line numbers as written
+    fresh = Fresh()
+    for f in ('n', 'd/n'):
+        t = t_missing_u0(m0, fresh, f)
+        out.append([Patch([t])])
+        out.append([Patch([t_mod(m0, fresh, 'f'), t])])
+        out.append([Patch([t], reverse=True)])
     # every failure reason, alone and next to a plain file patch on another file
     fresh = Fresh()
     for t in menu(m0, fresh):
